@@ -1,6 +1,6 @@
 HOOK_COMMITS = []
 ENGINES = [
-    {"name": "explore", "path": "vf/core/explore.py", "serves_properties": ["C01", "C02", "C03", "C07", "C08", "C09", "C11", "C13", "C14", "C15", "C16", "C17", "C18"], "kind_free_text": "explicit-state BFS with state merging over the real objects; bounded product enumeration; deviation-bounded stateless DFS"},
+    {"name": "explore", "path": "vf/core/explore.py", "serves_properties": ["C01", "C02", "C03", "C07", "C08", "C09", "C11", "C13", "C14", "C15", "C16", "C17", "C18", "C20"], "kind_free_text": "explicit-state BFS with state merging over the real objects; bounded product enumeration; deviation-bounded stateless DFS"},
     {"name": "vloop", "path": "vf/core/vloop.py", "serves_properties": ["C10", "C19"], "kind_free_text": "virtual asyncio event loop stepped by hand: ready-queue steps, environment events and timers are explicit choices explored exhaustively by explore.dfs"},
 ]
 NOT_APPLICABLE = {}
@@ -94,5 +94,11 @@ CHECKS = {
         technique="bounded exhaustive enumeration of request paths x app kinds x interfaces x directory spellings against a lexical resolver, with an audit hook on open()",
         text="Every path of <=3 (thorough 4) segments over a 14-symbol alphabet (dot segments, empty segments, '..name', percent sequences, non-ASCII, index/page names) with and without trailing slash x Files/Pages x WSGI/ASGI x directory given as absolute path, relative path (working directory changed after construction) or package-relative, on a real temporary tree with parent/sibling decoys ('rootx', 'root.html', same-named files above); served bytes, not-found, redirect target (followed once) compared with a hand-written lexical resolver; every open() below the sandbox but outside the directory is a violation.",
         note="no symlinks; POSIX; trailing slash on a file path may be served or not found",
+    ),
+    "C20": dict(
+        engine="explore", level="exploration", design_ref="DESIGN.md §3 C20",
+        technique="bounded exhaustive enumeration of inner applications x wrapper stacks x requests, differential against the bare application",
+        text="14 response recipes (every response class, two Set-Cookie lines, unknown status codes, 0..3-chunk streams, file with Range, event stream, body echo) and 10 raw WSGI / 7 raw ASGI applications (list, tuple, generator, empty iterable, iterable with close(), 1..3 body messages, raising before/after start and after the first chunk) x every stack of depth 1..3 over identity middleware, header-editing middleware and identity view decorator x 4 requests x both interfaces: same status, same headers (Set-Cookie lines separate), same body, inner app run exactly once, only the edited header differs, same exception class.",
+        note="repeated non-cookie headers may be combined (same meaning per RFC 9110); finite recipe list",
     ),
 }
